@@ -108,6 +108,9 @@ impl OneRun {
 
 pub fn run_once(check: &dyn TCheck, hooks: &THooks, prep: &Prepared, plan: Plan) -> OneRun {
     hooks.begin(&prep.knobs, prep.record_events);
+    // pack uuids (and with them the order of the pack map) must not depend on what this process
+    // ran before
+    simcore::osrand::reseed(0x6a75_6261_6b6f);
     let slot: Slot = Arc::new(Mutex::new(BodyReport::default()));
     let body = Arc::clone(&prep.body);
     let slot2 = Arc::clone(&slot);
@@ -265,6 +268,7 @@ pub fn parent_main(check: &dyn TCheck, args: &Args) -> ! {
         }
     }
     runs.sort_by_key(|r| (r["work"].as_u64().unwrap_or(0), r["s"].as_u64().unwrap_or(0)));
+    let run_digest = report::digest_records(runs.iter());
     let mut steps = 0u64;
     let mut choice_points = 0u64;
     let mut traces: BTreeSet<String> = BTreeSet::new();
@@ -324,6 +328,7 @@ pub fn parent_main(check: &dyn TCheck, args: &Args) -> ! {
         }
     }
     ev.fired("schedule-decision-with-alternative-taken", runs.iter().map(|r| r["switches"].as_u64().unwrap_or(0)).sum());
+    ev.extra.insert("run_digest".into(), json!(run_digest));
     ev.extra.insert("works".into(), json!(works.len()));
     ev.extra.insert("schedules_per_work".into(), json!(check.scheds(args.tier)));
     ev.extra.insert("scheduler_steps".into(), json!(steps));
@@ -381,6 +386,7 @@ pub fn parent_main(check: &dyn TCheck, args: &Args) -> ! {
         simcore::harness_error("fewer than 2 distinct non-trivial schedules");
     }
     ev.write().expect("write evidence");
+    println!("DIGEST {id} {run_digest}");
     println!(
         "{id}: {} executions over {} works, {} steps, {} distinct decision traces, {} distinct interleavings, {} known-finding, {} new violations, {:.1}s",
         ev.evaluations,
